@@ -246,6 +246,12 @@ impl C04 {
 
 impl Check for C04 {
     fn id(&self) -> &'static str { "C04" }
+    fn miri_plan(&self, tier: Tier) -> Option<Vec<(u64, u64)>> {
+        if tier != Tier::Thorough {
+            return None;
+        }
+        Some((0 .. 16).map(|i| (i * 24, 24)).collect())
+    }
     fn rule(&self) -> String {
         "random GameSpy 1/2/3 server states (0-64 players, 0-8 teams, extra variables, optional per-player fields, 1-7 parts/packets) encoded by independent server models; query must return every scalar, every player and team exactly as sent and unused_entries == sent variables minus consumed keys (both directions); query_vars must return exactly the sent map. non-trivial = Ok and equal; distinct by datagram bytes".into()
     }
